@@ -140,6 +140,10 @@ LAWS = [
     ("group-operand", lambda fn, cap, ctx: (f"{fn}(({cap}), !w)", f"{fn}({cap}, !w)")),
     ("group-operand-cat", lambda fn, cap, ctx: (f"{fn}((x as v):@T, !w)", f"{fn}(x as v:@T, !w)")),
     ("group-call-as", lambda fn, cap, ctx: (f"{fn}({ctx}, (g() as s), h(!w))", f"{fn}({ctx}, g() as s, h(!w))")),
+    # a variable that is context (or condition) and focus of the same call
+    ("same-var-focus", lambda fn, cap, ctx: (f"{fn}({ctx}, x=1) > x", f"{fn}({ctx}, x=1, !x)")),
+    ("same-var-twice", lambda fn, cap, ctx: (f"{fn}(x) > x", f"{fn}(x, !x)")),
+    ("same-var-nested", lambda fn, cap, ctx: (f"g > {fn}(x~p(3)) > x", f"g({fn}(x~p(3), !x))")),
     ("root-chain-call-as", lambda fn, cap, ctx: (f"g > {fn}({ctx}) as r", f"g({fn}({ctx}, !#value as r))")),
 ]
 
